@@ -214,6 +214,12 @@ class Check(CheckBase):
 
     def cases(self, tier):
         cs = [{"label": "xml/L%d" % n, "kind": "xml", "n": n, "split_depth": 8 if n >= 4 else None} for n in range(0, 5 if tier == "quick" else 6)]
+        # long texts, one free character: every position but one is pinned to a special character (the five in turn), the remaining
+        # one ranges over all XML-legal characters.  A specialisation that reaches lengths (and numbers of special characters) the
+        # fully symbolic cases cannot, e.g. a cap on the number of substitutions.
+        for n, ks in (((10, (0, 5, 9)),) if tier == "quick" else ((9, (0, 4, 8)), (10, (0, 5, 9)), (12, (0, 6, 11)), (16, (0, 8, 15)), (24, (0, 12, 23)))):
+            for k in ks:
+                cs.append({"label": "xml/long/k%d/L%d" % (k, n), "kind": "xml", "n": n, "free": k})
         for m in ("ms", "s-milli", "s-int", "ms-vs-s", "ms-frac", "ms-frac-vs-s"):
             cs.append({"label": "hms/" + m, "kind": "hms", "mode": m})
         return cs
@@ -234,6 +240,8 @@ class Check(CheckBase):
                 # any XML-legal character (XML 1.0 production [2] Char), as a code point
                 run._add(z3.Or(c == 9, c == 10, c == 13, z3.And(c >= 0x20, c <= 0xD7FF), z3.And(c >= 0xE000, c <= 0xFFFD),
                                z3.And(c >= 0x10000, c <= 0x10FFFF)))
+                if "free" in case and i != case["free"]:
+                    run._add(c == ord("&<>\"'"[i % 5]))
                 cs.append(c)
             s = SymStr(cs)
             try:
